@@ -42,10 +42,11 @@ class Killed(Exception):
 def lattice_spec(
     n=4, moves=None, workers=1, steps=20, seed=1, cap=None, wall=-1, n_jumps=2, maxlength=400,
     allowmaxlength=False, delete_old=False, delete_old_all=False, subcycles=1, screen=0,
-    engine="lattice", ensemble_engines=None, extra_engines=None, zeroswap=None,
+    engine="lattice", ensemble_engines=None, extra_engines=None, zeroswap=None, origin=0.0,
 ):
     moves = list(moves) if moves else ["sh"] * n
     return dict(
+        origin=origin,
         n=n, moves=moves, workers=workers, steps=steps, seed=seed, cap=cap, wall=wall, n_jumps=n_jumps,
         maxlength=maxlength, allowmaxlength=allowmaxlength, delete_old=delete_old,
         delete_old_all=delete_old_all, subcycles=subcycles, screen=screen, engine=engine,
@@ -65,8 +66,9 @@ def lattice_config(spec):
         "zero_momentum": False,
         "n_jumps": spec["n_jumps"],
     }
+    origin = float(spec.get("origin", 0.0) or 0.0)
     if spec.get("cap") is not None:
-        tis_set["interface_cap"] = spec["cap"]
+        tis_set["interface_cap"] = spec["cap"] - origin
     eng = {
         "class": "LatticeEngine",
         "module": "latticeeng.py",
@@ -78,7 +80,7 @@ def lattice_config(spec):
     cfg = {
         "runner": {"workers": spec["workers"]},
         "simulation": {
-            "interfaces": lattice_interfaces(n),
+            "interfaces": [x - origin for x in lattice_interfaces(n)],
             "steps": spec["steps"],
             "seed": spec["seed"],
             "load_dir": "load",
@@ -86,7 +88,7 @@ def lattice_config(spec):
             "tis_set": tis_set,
         },
         "engine": eng,
-        "orderparameter": {"class": "LatticeOP", "module": "latticeeng.py"},
+        "orderparameter": {"class": "LatticeOP", "module": "latticeeng.py", "origin": origin},
         "output": {
             "data_dir": "./",
             "screen": spec["screen"],
@@ -113,7 +115,7 @@ def lattice_start_orders(n):
     return paths
 
 
-def write_load_path(load_dir, number, orders, fname="path.lat"):
+def write_load_path(load_dir, number, orders, fname="path.lat", origin=0.0):
     pdir = os.path.join(load_dir, str(number))
     os.makedirs(os.path.join(pdir, "accepted"), exist_ok=True)
     with open(os.path.join(pdir, "accepted", fname), "w") as fh:
@@ -128,7 +130,7 @@ def write_load_path(load_dir, number, orders, fname="path.lat"):
         fh.write("# Cycle: 0, status: ACC, move: ('ld', 0, 0, 0)\n")
         fh.write("#     Time       Orderp\n")
         for i, x in enumerate(orders):
-            fh.write(f"{i:>10d} {float(x):>12.6f}\n")
+            fh.write(f"{i:>10d} {float(x) - origin:>12.6f}\n")
 
 
 def make_rundir(spec, root=None):
@@ -139,7 +141,7 @@ def make_rundir(spec, root=None):
         tomli_w.dump(lattice_config(spec), fh)
     shutil.copy(os.path.join(HERE, "engines", "latticeeng.py"), os.path.join(d, "latticeeng.py"))
     for i, orders in enumerate(lattice_start_orders(spec["n"])):
-        write_load_path(os.path.join(d, "load"), i, orders)
+        write_load_path(os.path.join(d, "load"), i, orders, origin=float(spec.get("origin", 0.0) or 0.0))
     return d
 
 
